@@ -55,7 +55,11 @@ BomStep(b, D) ==
 \* ---    abs: BOOLEAN; abs = TRUE: meta0 = result of the prescan (abstract models);               ---
 \* ---                  abs = FALSE: data = the bytes, the prescan runs when the chain reaches it]  ---
 MetaOf(src, pos, D) == IF src.abs THEN src.meta0 ELSE PrescanWindow(Window(src.data, pos), D)
-EncInit == [pc |-> "bom", enc |-> "none", conf |-> "undetermined", pos |-> 0, with |-> "none", from |-> 0, restarts |-> 0]
+\* held: the character layer under the decoder (HTMLUnicodeInputStream.readChunk) is holding back the last character
+\* of the chunk it has read (a CR or a lead surrogate at the very end of a chunk waits for the next chunk)
+EncInit == [pc |-> "bom", enc |-> "none", conf |-> "undetermined", pos |-> 0, with |-> "none", from |-> 0, restarts |-> 0,
+            held |-> FALSE]
+ChunkRead(st, endsHeld) == [st EXCEPT !.held = endsHeld]
 Decide(st, e, c) == [st EXCEPT !.pc = "ready", !.enc = e, !.conf = c]
 
 EncStep(st, src, D) ==
@@ -128,7 +132,8 @@ ChangeEncoding(st, label, D) ==
     ELSE LET e == IF IsUtf16(e0) THEN "utf-8" ELSE e0 IN
          IF e = st.enc THEN [st EXCEPT !.conf = "certain"]
          ELSE [st EXCEPT !.pc = "restart", !.enc = e, !.conf = "certain", !.pos = 0, !.with = e, !.from = 0,
-                         !.restarts = @ + 1]
+                         !.restarts = @ + 1,
+                         !.held = FALSE]      \* reset(): nothing read in the abandoned pass survives
 MetaTag(st, attrs, D) ==
     LET c == MetaCall(st, attrs, D) IN IF c.call THEN ChangeEncoding(st, c.label, D) ELSE st
 \* HTMLParser._parse: on _ReparseException reset and run the main loop again
@@ -141,6 +146,10 @@ Declares(attrs, D) ==
     c.call /\ GetEncoding(c.label) # "none" /\ ~(IsUtf16(GetEncoding(c.label)) /\ "latemeta-utf16-no-switch" \in D)
 
 \* --- the property's clauses on one state / one step ---
+\* a restart re-reads the bytes from offset 0 with the new decoder and an empty character layer, whatever the
+\* abandoned pass had read (this is what makes the result the tree of the bytes in the reported encoding for
+\* every entry point: parse, and parseFragment where leading characters are significant)
+RestartIsFresh(st) == st.pc = "restart" => (~st.held /\ st.from = 0 /\ st.pos = 0 /\ st.with = st.enc)
 CertainStable(st, st2) == st.conf = "certain" => (st2.enc = st.enc /\ st2.conf = "certain")
 ReportedIsUsed(st) == st.with = st.enc
 \* a declaration met while tentative: afterwards certain, and the decoder is the declared encoding (UTF-16 => UTF-8)
